@@ -332,7 +332,13 @@ func (fc *funcContext) translateFunctionBody(typ *ast.FuncType, recv *ast.Ident,
 
 	if len(fc.Flattened) != 0 {
 		prefix = prefix + " s: while (true) { switch ($s) { case 0:"
-		suffix = " } return; }" + suffix
+		fallOff := " } return; }"
+		if fc.HasDefer && fc.resultNames == nil && fc.sig.HasResults() {
+			// A function resumed with $s = -1 (its panic was recovered, then a deferred
+			// call blocked) must return the zero values again, like the catch block did.
+			fallOff = fmt.Sprintf(" } return%s; }", fc.translateResults(nil))
+		}
+		suffix = fallOff + suffix
 	}
 
 	if fc.HasDefer {
